@@ -2,13 +2,21 @@
 
      genesis_deposit_loop_refines   the deposit loop: List[Root] view + cache-driven ProcessDeposit = the Spec's loop
      genesis_activation_refines     the activation loop = the Spec's map over (validator, balance)
+     load_epc_genesis               LoadShuffling + LoadProposers (C07 Impl models) on a genesis state: error iff no active validator
      genesis_from_eth1_refines      GenesisFromEth1 = initialize_beacon_state_from_eth1, Ok/Err alike, with zrnt's two
                                     extra refusals stated (registry below SLOTS_PER_EPOCH; no active validator)
+     genesis_cache_matches          the returned context's pubkey cache answers lookups as the Spec's registry scan
      valid_genesis_refines          IsValidGenesisState = is_valid_genesis_state
      kickstart_refines              KickStartState = the Spec under the oracle accepting every decodable key/signature,
                                     timestamp 0, genesis_time overwritten
+     empty_state_is_default         NewBeaconStateView = default value of the phase0 state type
+     GenesisExample                 six deposits under SHA-256 with real Merkle branches: hypotheses hold, Impl = Spec
    The pubkey-cache part reuses C16: Pubkeys/CacheProofs.sim_step (Impl cache = history Spec) and
-   Pubkeys/DepositProofs.dinv / s_add_new_key (the handle's history extends the registry; the add is never refused). *)
+   Pubkeys/DepositProofs.dinv / s_add_new_key (the handle's history extends the registry; the add is never refused).
+   The epochs-context part reuses C07: ShufflingRefine.new_shuffling_epoch_refines, ProposersRefine.compute_proposers_refines.
+   Pitfalls met: never state `x = match <closed spec term> with ..` (elaboration evaluates the discriminee: use of_opt);
+   never `vm_compute` a goal with a symbolic hash input; conversion between fuelled loops of two environments must be
+   proved at generic fuel (at literal fuel 1000 the kernel unfolds the iterations). *)
 From Coq Require Import String.
 From Coq Require Import NArith ZArith Lia List Bool Arith.
 From Coq Require Import ZifyN ZifyNat ZifyBool.
@@ -143,6 +151,16 @@ Proof. induction 1; cbn [length]; congruence. Qed.
 Lemma outcome_fold_err {A B} (f : A -> B -> outcome A) (l : list B) :
   fold_left (fun a b => x <~ a ;; f x b) l Err = Err.
 Proof. induction l as [|b l IH]; cbn [fold_left bind]; [reflexivity|exact IH]. Qed.
+
+(* ================= NewBeaconStateView = the default value of the phase0 state type ================= *)
+Lemma map_repeat' {A B} (f : A -> B) x n : map f (repeat x n) = repeat (f x) n.
+Proof. induction n; cbn [repeat map]; congruence. Qed.
+Lemma empty_state_is_default (E : Env) :
+  empty_state E = state_of_value (cfg E) Phase0 (default_value (BeaconStateT (cfg E) Phase0)).
+Proof.
+  unfold empty_state, state_of_value. cbn -[repeat N.to_nat zero32].
+  rewrite !map_repeat'. cbn [vbytes vuint]. reflexivity.
+Qed.
 
 Section GenesisPure.
   Variable E : Env.
@@ -718,7 +736,15 @@ Section Genesis.
     else if N.of_nat (length (get_active_validator_indices st GENESIS_EPOCH)) =? 0 then Err
     else Ok st.
 
-  Lemma genesis_from_eth1_gen ignore hash time deps :
+  Lemma reg_keys_activate : forall vals bals, length bals = length vals ->
+    reg_keys (map (spec_activate E) (combine vals bals)) = reg_keys vals.
+  Proof.
+    induction vals as [|v vals IH]; intros [|b bals] Hl; cbn [length] in Hl; try discriminate; [reflexivity|].
+    cbn [combine map reg_keys]. fold (reg_keys (map (spec_activate E) (combine vals bals))). fold (reg_keys vals).
+    rewrite IH by lia. f_equal. unfold spec_activate. destruct (_ =? _); reflexivity.
+  Qed.
+
+  Lemma genesis_ctx_gen ignore hash time deps :
     (forall x, length (Hash E x) = 32%nat) -> length (zero_hashes E 2) = 32%nat ->
     0 < EFFECTIVE_BALANCE_INCREMENT c -> epc_params_ok E ->
     (forall pk m s, bls_verify E pk m s = pk_ok pk && sig_ok s && (ignore || bls_verify E pk m s)) ->
@@ -726,13 +752,14 @@ Section Genesis.
     N.of_nat (length deps) <= DEPOSIT_ROOTS_LIMIT -> N.of_nat (length deps) <= VALIDATOR_REGISTRY_LIMIT c ->
     sumN (map dep_amount deps) < two64 -> Forall (fun d => pubkey_wf (dep_pubkey d)) deps ->
     match initialize_beacon_state_from_eth1 E hash time deps with
-    | Some st => genesis_from_eth1 E pk_ok sig_ok hash time deps ignore = go_verdict st
-    | None => ignore = false -> genesis_from_eth1 E pk_ok sig_ok hash time deps ignore = Err
+    | Some st => exists pc, genesis_from_eth1_ctx E pk_ok sig_ok hash time deps ignore = (s <~ go_verdict st ;; Ok (s, pc))
+                            /\ cache_inv pc (validators st) /\ (forall v, In v (validators st) -> pubkey_wf (v_pubkey v))
+    | None => ignore = false -> genesis_from_eth1_ctx E pk_ok sig_ok hash time deps ignore = Err
     end.
   Proof.
     intros HH Hz HI Hepc Hver Ht Hn32 Hn HS Hpk.
     assert (HSPE : 0 < SLOTS_PER_EPOCH c) by exact (ep_spe E Hepc).
-    rewrite initialize_unfold. unfold genesis_from_eth1.
+    rewrite initialize_unfold. unfold genesis_from_eth1_ctx.
     set (st0 := genesis_pre_state E hash time (length deps)).
     assert (Hst0 : genesis_pre_state E hash (time - 0) (length deps) <| genesis_time := time + GENESIS_DELAY c |> = st0).
     { unfold st0, genesis_pre_state, seed_randao, empty_state. fold c. rewrite N.sub_0_r, add64_small by exact Ht. reflexivity. }
@@ -744,7 +771,13 @@ Section Genesis.
     destruct (spec_deposit_loop_frame _ _ _ _ _ Hspec) as [Hmix Hfresh].
     specialize (Hfresh (Forall_nil _)).
     destruct Hloop as (pc' & -> & [Hg Hroots Hlen Hroot]). cbn [bind fst]. cbv zeta.
-    destruct Hg as [Hb Hcnt _ _ _ _]. rewrite !N.add_0_l in *.
+    destruct Hg as [Hb Hcnt _ _ Hkeys Hcache]. rewrite !N.add_0_l in *.
+    exists pc'. split; [|split].
+    2:{ simpl_set. destruct Hcache as (t & Hsim & Hdinv). exists t. split; [exact Hsim|].
+        rewrite reg_keys_activate by exact Hb. exact Hdinv. }
+    2:{ simpl_set. intros w Hw. apply in_map_iff in Hw. destruct Hw as ([v b] & <- & Hin). apply in_combine_l in Hin.
+        replace (v_pubkey (spec_activate E (v, b))) with (v_pubkey v) by (unfold spec_activate; destruct (_ =? _); reflexivity).
+        apply Hkeys. exact Hin. }
     unfold go_verdict. simpl_set.
     rewrite map_length, combine_length, Hb, Nat.min_id.
     destruct deps as [|d deps'].
@@ -765,6 +798,55 @@ Section Genesis.
       + apply genesis_registry_activate. exact Hfresh.
       + rewrite map_length, combine_length, Hb, Nat.min_id. cbn [length] in Hcnt.
         unfold DEPOSIT_ROOTS_LIMIT, DEPOSIT_CONTRACT_TREE_DEPTH in Hn32. cbn [length] in Hn32. lia.
+  Qed.
+
+  Lemma genesis_from_eth1_gen ignore hash time deps :
+    (forall x, length (Hash E x) = 32%nat) -> length (zero_hashes E 2) = 32%nat ->
+    0 < EFFECTIVE_BALANCE_INCREMENT c -> epc_params_ok E ->
+    (forall pk m s, bls_verify E pk m s = pk_ok pk && sig_ok s && (ignore || bls_verify E pk m s)) ->
+    time + GENESIS_DELAY c < two64 ->
+    N.of_nat (length deps) <= DEPOSIT_ROOTS_LIMIT -> N.of_nat (length deps) <= VALIDATOR_REGISTRY_LIMIT c ->
+    sumN (map dep_amount deps) < two64 -> Forall (fun d => pubkey_wf (dep_pubkey d)) deps ->
+    match initialize_beacon_state_from_eth1 E hash time deps with
+    | Some st => genesis_from_eth1 E pk_ok sig_ok hash time deps ignore = go_verdict st
+    | None => ignore = false -> genesis_from_eth1 E pk_ok sig_ok hash time deps ignore = Err
+    end.
+  Proof.
+    intros HH Hz HI Hepc Hver Ht Hn32 Hn HS Hpk.
+    pose proof (genesis_ctx_gen ignore hash time deps HH Hz HI Hepc Hver Ht Hn32 Hn HS Hpk) as G.
+    unfold genesis_from_eth1.
+    destruct (initialize_beacon_state_from_eth1 E hash time deps) as [st|].
+    - destruct G as (pc & -> & _). unfold go_verdict.
+      destruct (_ <? _); cbn [bind]; [reflexivity|]. destruct (_ =? _); reflexivity.
+    - intros Hi. rewrite (G Hi). reflexivity.
+  Qed.
+
+  (* the context returned with the state: its pubkey cache answers every lookup as the registry scan of the Spec does *)
+  Theorem genesis_cache_matches (eth1_block_hash : bytes) (eth1_timestamp : N) (deposits : list value)
+                                (st : BeaconState) (pc : pubkey_cache) :
+    (forall x, length (Hash E x) = 32%nat) -> length (zero_hashes E 2) = 32%nat ->
+    0 < EFFECTIVE_BALANCE_INCREMENT c -> epc_params_ok E -> verify_decodes ->
+    eth1_timestamp + GENESIS_DELAY c < two64 ->
+    N.of_nat (length deposits) <= DEPOSIT_ROOTS_LIMIT -> N.of_nat (length deposits) <= VALIDATOR_REGISTRY_LIMIT c ->
+    sumN (map dep_amount deposits) < two64 -> Forall (fun d => pubkey_wf (dep_pubkey d)) deposits ->
+    genesis_from_eth1_ctx E pk_ok sig_ok eth1_block_hash eth1_timestamp deposits false = Ok (st, pc) ->
+    initialize_beacon_state_from_eth1 E eth1_block_hash eth1_timestamp deposits = Some st /\
+    forall pk, pubkey_wf pk ->
+      exists o, pc_lookup pc pk = Ok o /\
+        option_map N.of_nat (match o with Some j => if Nat.ltb j (length (validators st)) then Some j else None | None => None end)
+        = find_pubkey pk (validators st) 0.
+  Proof.
+    intros HH Hz HI Hepc Hdec Ht Hn32 Hn HS Hpk Hrun.
+    pose proof (genesis_ctx_gen false eth1_block_hash eth1_timestamp deposits HH Hz HI Hepc
+                  (verify_decodes_eq Hdec) Ht Hn32 Hn HS Hpk) as G.
+    destruct (initialize_beacon_state_from_eth1 E eth1_block_hash eth1_timestamp deposits) as [st'|].
+    2:{ rewrite (G eq_refl) in Hrun. discriminate. }
+    destruct G as (pc' & Hctx & Hcache & Hkeys). rewrite Hctx in Hrun. unfold go_verdict in Hrun.
+    destruct (_ <? _); cbn [bind] in Hrun; [discriminate|]. destruct (_ =? _); cbn [bind] in Hrun; [discriminate|].
+    injection Hrun as <- <-. split; [reflexivity|].
+    intros pk Hwf. destruct (cache_lookup pc' (validators st') pk Hcache) as (o & Hl & Hf).
+    exists o. split; [exact Hl|]. rewrite Hf, (find_pubkey_index_of pk Hwf (validators st') 0 Hkeys).
+    destruct (CacheSpec.index_of _ _); cbn [option_map]; [f_equal; lia|reflexivity].
   Qed.
 
   Theorem genesis_from_eth1_refines (eth1_block_hash : bytes) (eth1_timestamp : N) (deposits : list value) :
@@ -881,7 +963,7 @@ Section Kickstart.
   Lemma genesis_from_eth1_ignore hash time ds1 ds2 : Forall2 (fun a b => vfield a 1 = vfield b 1) ds1 ds2 ->
     genesis_from_eth1 E pk_ok sig_ok hash time ds1 true = genesis_from_eth1 EA pk_ok sig_ok hash time ds2 true.
   Proof.
-    intros H. unfold genesis_from_eth1.
+    intros H. unfold genesis_from_eth1, genesis_from_eth1_ctx.
     rewrite (deposit_loop_ignore ds1 ds2 _ H). rewrite (Forall2_len _ _ _ H).
     change (genesis_pre_state EA) with (genesis_pre_state E).
     destruct (deposit_loop EA pk_ok sig_ok true ds2 _) as [[[st roots] pc]| | | |]; cbn [bind]; [|reflexivity..].
